@@ -21,6 +21,7 @@ Definition s_F_assign : str := [70;58;58].
 Definition s_true' : str := [116;114;117;101].
 Definition s_false' : str := [102;97;108;115;101].
 Definition s_null' : str := [110;117;108;108].
+Definition s_None' : str := [78;111;110;101].
 
 Definition is_value_tok (t : token) : bool :=
   match tk t with IDENTIFIER | NUMBER | VERSION | BOOLEAN | NULL | STRING | VARIABLE => true | _ => false end.
@@ -86,6 +87,7 @@ Definition read_tokens (toks : list token) : rval :=
                | b :: _ => match tk b with BLOCK => ROut | _ => RStr joined end
                | [] => RStr joined
                end
+      | EOF, _ => RStr s_None'        (* nothing after `::` : the fallback str(token.value) of the EOF token *)
       | _, _ => ROut
       end
   end.
